@@ -207,6 +207,18 @@ func TestVerifReplayC16Runtime(t *testing.T) {
 `
 
 func replayC16(r *Run, o *Obligation) *ReplayResult {
+	if strings.Contains(o.Name, "FSEventHandler") || strings.HasPrefix(o.Name, "generatecmd.") {
+		if r.replayOut == nil {
+			r.replayOut = map[string]string{}
+		}
+		out, ok := r.replayOut["C16handler"]
+		if !ok {
+			out, _ = r.runReplayTest("cmd/templ/generatecmd", c16HandlerHarness, map[string]string{}, "TestVerifReplayC16Handler")
+			r.replayOut["C16handler"] = out
+		}
+		okc, detail := replayVerdict(out)
+		return &ReplayResult{Confirmed: okc, Input: "the real FSEventHandler in development mode over edit pairs of one template file", Detail: detail}
+	}
 	if strings.HasPrefix(o.Name, "runtime.") {
 		out, _ := r.runReplayTest("runtime", c16RuntimeHarness, map[string]string{}, "TestVerifReplayC16Runtime")
 		okc, detail := replayVerdict(out)
@@ -238,3 +250,68 @@ func replayC16(r *Run, o *Obligation) *ReplayResult {
 	}
 	return &ReplayResult{Confirmed: false, Input: "templates and edit pairs run through the real parser, generator and HasChanged", Detail: detail}
 }
+
+// C16, the development-mode text file writer (FSEventHandler.generate: file I/O, hashes, maps behind mutexes - outside
+// the executor's subset): bounded stand-in, also in the quick tier. After every generation in development mode the
+// text file holds exactly the literals of the template as it is now, whatever the previous contents were.
+const c16HandlerHarness = `package generatecmd
+
+import (
+	"bytes"
+	"context"
+	"fmt"
+	"io"
+	"log/slog"
+	"os"
+	"path/filepath"
+	"strings"
+	"testing"
+
+	"github.com/a-h/templ/generator"
+	"github.com/a-h/templ/parser/v2"
+	"github.com/a-h/templ/runtime"
+)
+
+func TestVerifReplayC16Handler(t *testing.T) {
+	dir := t.TempDir()
+	t.Setenv("TEMPL_DEV_MODE_ROOT", dir)
+	log := slog.New(slog.NewTextHandler(io.Discard, nil))
+	bodies := []string{
+		"<p>Hi{ name }!!</p>", "<p>Hi!{ name }!</p>", "<p>Hi!!{ name }</p>", "<p>{ name }Hi!!</p>",
+		"<p>call({ name })</p>", "<p>call(){ name }</p>", "<p>a</p>{ name }<p>b</p>", "<p>a</p><p>b</p>{ name }", "<p>ab</p>{ name }<p></p>",
+		"<p>x</p>", "<p>y</p>", "<i>{ name }</i><b>{ name }</b>", "<i>{ name }{ name }</i><b></b>",
+	}
+	src := func(b string) string { return "package p\n\ntempl t(name string) {\n\t" + b + "\n}\n" }
+	file := filepath.Join(dir, "t.templ")
+	h := NewFSEventHandler(log, dir, true, nil, false, false, func(string, []byte) error { return nil }, false)
+	n := 0
+	for _, a := range bodies {
+		for _, b := range bodies {
+			for _, body := range []string{a, b} {
+				os.WriteFile(file, []byte(src(body)), 0o644)
+				res, _, err := h.generate(context.Background(), file)
+				if err != nil {
+					continue
+				}
+				tf, err := parser.ParseString(src(body))
+				if err != nil {
+					continue
+				}
+				var buf bytes.Buffer
+				op, err := generator.Generate(tf, &buf)
+				if err != nil {
+					continue
+				}
+				want := strings.Join(op.Literals, "\n")
+				got, _ := os.ReadFile(runtime.GetDevModeTextFileName(file))
+				n++
+				if string(got) != want {
+					fmt.Printf("REPLAY-CONFIRMED watch mode: after the edit %q -> %q the handler reports %+v and the development text file holds %q, but the literals of the template are now %q: the running program keeps rendering the old text\n", a, b, res, got, want)
+					return
+				}
+			}
+		}
+	}
+	fmt.Printf("REPLAY-NOT-REPRODUCED bounded search: %d generations over %d edit pairs (text moved across expressions, literal counts kept) leave the text file equal to the current literals\n", n, len(bodies)*len(bodies))
+}
+`
